@@ -38,6 +38,7 @@ type monitor struct {
 	family     kv.Family
 	rollupOn   bool
 	famDir     string
+	ledger     *rollupLedger // the engine's own account of (table, interval) rollups that have not completed (nil: none)
 }
 
 func (m *monitor) tick() int64 { return atomic.AddInt64(&m.clock, 1) }
@@ -110,6 +111,9 @@ func (m *monitor) beforeRemoveDir(path string) {
 			}
 		}
 	}
+	if m.ledger != nil {
+		m.ledgerBeforeRemove(name)
+	}
 }
 
 func (m *monitor) beforeUnmap(path string) {
@@ -149,12 +153,22 @@ type cfg struct {
 	Keys              int
 	Preload           int // tables flushed before the concurrent phase (big family: wide cleanup windows)
 	Cleaners          int // extra goroutines running the obsolete file cleanup
+	// Rollup runs: real rollup jobs run concurrently; one target interval completes from the start, the other one stays
+	// pending (its target store is not open, or its rollup merges fail) until half of the flushes are committed
+	RollupOrder     []string
+	RollupDoneFirst string
+	RollupCause     string
+	RollupThreshold int
 }
 
 func runChild() {
 	idx, _ := strconv.Atoi(os.Args[2])
 	dir := os.Args[3]
 	seed, _ := strconv.ParseInt(os.Getenv("VERIF_SEED"), 10, 64)
+	if idx >= rollupBase {
+		runDirectedRollup(idx-rollupBase, dir, seed)
+		return
+	}
 	if idx >= directedBase {
 		runDirected(idx-directedBase, dir, seed)
 		return
@@ -171,11 +185,32 @@ func runChild() {
 		c.Preload, c.Cleaners, c.Threshold, c.Rollup = 1200, 4, 1<<30, false
 		c.Flushers, c.Flushes, c.Readers = 3, 60, 4
 	}
-	res := &runResult{Run: idx, Config: fmt.Sprintf("%+v", c), Counters: map[string]int{}}
-	mon := &monitor{snapFiles: map[int]map[string]bool{}, readerHeld: map[string]int{}, counters: map[string]int{}, rollupOn: c.Rollup}
-
+	famName, mergerName := "f", kvtok.MergerName
 	storeDir := filepath.Join(dir, "store")
-	mon.famDir = filepath.Join(storeDir, "f")
+	var world *rollupWorld
+	var ledger *rollupLedger
+	var rollupOrder []timeutil.Interval
+	var doneFirst, pendingFirst timeutil.Interval
+	if c.Rollup {
+		rr := rand.New(rand.NewSource(int64(mix64(uint64(seed)*2741 + uint64(idx)*131 + 5))))
+		rollupOrder = []timeutil.Interval{fiveMinutes, oneHour}
+		if rr.Intn(2) == 1 {
+			rollupOrder = []timeutil.Interval{oneHour, fiveMinutes}
+		}
+		doneFirst, pendingFirst = rollupOrder[1], rollupOrder[0]
+		if rr.Intn(3) == 0 {
+			doneFirst, pendingFirst = rollupOrder[0], rollupOrder[1]
+		}
+		c.RollupOrder, c.RollupDoneFirst = ivNames(rollupOrder), doneFirst.String()
+		c.RollupCause = []string{"target-store-absent", "rollup-work-fails"}[rr.Intn(2)]
+		c.RollupThreshold = []int{1, 2, 3}[rr.Intn(3)]
+		world = newRollupWorld(dir, familyDates[rr.Intn(len(familyDates))], c.Levels, time.Duration(c.TTLms)*time.Millisecond)
+		ledger = newRollupLedger(rollupOrder, world.targets)
+		storeDir, famName, mergerName = world.srcName, world.srcFamName, failableName
+	}
+	res := &runResult{Run: idx, Config: fmt.Sprintf("%+v", c), Counters: map[string]int{}}
+	mon := &monitor{snapFiles: map[int]map[string]bool{}, readerHeld: map[string]int{}, counters: map[string]int{}, rollupOn: c.Rollup, ledger: ledger}
+	mon.famDir = filepath.Join(storeDir, famName)
 	var delayMu sync.Mutex
 	delayRnd := rand.New(rand.NewSource(seed*31 + int64(idx)))
 	delay := func() {
@@ -199,17 +234,70 @@ func runChild() {
 	opt.TTL = ltoml.Duration(time.Duration(c.TTLms) * time.Millisecond)
 	opt.Source = timeutil.Interval(10_000)
 	if c.Rollup {
-		opt.Rollup = []timeutil.Interval{timeutil.Interval(300_000), timeutil.Interval(3600_000)}
+		opt.Rollup = rollupOrder
 	}
 	store, err := kv.GetStoreManager().CreateStore(storeDir, opt)
 	if err != nil {
 		fatal(dir, res, "create store: %v", err)
 	}
-	fam, err := store.CreateFamily("f", kv.FamilyOption{Merger: kvtok.MergerName, CompactThreshold: c.Threshold, MaxFileSize: c.MaxFileSize})
+	fam, err := store.CreateFamily(famName, kv.FamilyOption{Merger: mergerName, CompactThreshold: c.Threshold, RollupThreshold: c.RollupThreshold, MaxFileSize: c.MaxFileSize})
 	if err != nil {
 		fatal(dir, res, "create family: %v", err)
 	}
 	mon.family = fam
+	// releasePending makes the rollup of the interval that was held back possible (once)
+	var releaseOnce sync.Once
+	releasePending := func() {
+		releaseOnce.Do(func() {
+			if c.RollupCause == "target-store-absent" {
+				if err := world.targets[pendingFirst].open(); err != nil {
+					mon.violate("C02/setup-failed", "create the pending target store: %v", err)
+				}
+			} else {
+				setRollupFails(pendingFirst, false)
+			}
+			mon.count("rollup.stress.pending_interval_released_while_jobs_run", 1)
+		})
+	}
+	if c.Rollup {
+		if err := world.targets[doneFirst].open(); err != nil {
+			fatal(dir, res, "create target store: %v", err)
+		}
+		if c.RollupCause != "target-store-absent" {
+			if err := world.targets[pendingFirst].open(); err != nil {
+				fatal(dir, res, "create target store: %v", err)
+			}
+			setRollupFails(pendingFirst, true)
+		}
+	}
+	// identify finds the level-0 table a flush created (level 0 only ever holds flush outputs, each with the one token of
+	// its flush) and puts it into the ledger of unfinished rollups
+	identify := func(key, tok uint32) {
+		snap := fam.GetSnapshot()
+		defer snap.Close()
+		for _, fm := range snap.GetCurrent().GetFiles(0) {
+			fn := fm.GetFileNumber()
+			if _, _, known := ledger.pending(fn); known {
+				continue
+			}
+			rd, err := snap.GetReader(fn)
+			if err != nil {
+				continue
+			}
+			v, err := rd.Get(key)
+			if err != nil {
+				continue
+			}
+			if ts, err := kvtok.Decode(v); err == nil && len(ts) == 1 && ts[0] == tok {
+				ledger.register(fn, map[uint32][]uint32{key: {tok}})
+				mon.count("rollup.flushed_tables_in_the_ledger", 1)
+				return
+			}
+		}
+		mon.count("rollup.flushes_whose_table_could_not_be_identified", 1)
+	}
+	var commitCount int64
+	totalFlushes := int64(c.Flushers * c.Flushes)
 	// a seeded delay between version.Release's decrement and the removal from the active versions
 	{
 		snap0 := fam.GetSnapshot()
@@ -335,6 +423,12 @@ func runChild() {
 				commMu.Unlock()
 				record(histOp{Client: 100 + fi, Commit: true, Token: tok, Call: call, Ret: ret})
 				mon.count("commits", 1)
+				if c.Rollup {
+					identify(key, tok)
+					if atomic.AddInt64(&commitCount, 1) == totalFlushes/2 {
+						releasePending()
+					}
+				}
 				time.Sleep(time.Duration(r.Intn(400)) * time.Microsecond)
 			}
 		}(fi)
@@ -346,15 +440,27 @@ func runChild() {
 		defer wg.Done()
 		r := rand.New(rand.NewSource(seed + int64(idx)*100 + 77))
 		for !stop.Load() {
-			switch r.Intn(4) {
+			action := r.Intn(4)
+			if c.Rollup && r.Intn(3) == 0 {
+				action = 4 + r.Intn(3)
+			}
+			switch action {
 			case 0:
 				fam.Compact()
 			case 1:
 				kv.VerifStoreCompact(store) // compaction check + rollup check + reader cache cleanup
 			case 2:
 				kv.VerifFamilyDeleteObsoleteFiles(fam)
-			default:
+			case 3:
 				kv.VerifFamilyCompact(fam)
+			case 4:
+				store.ForceRollup()
+				mon.count("rollup.stress.rollup_jobs_requested", 1)
+			case 5:
+				kv.VerifFamilyRollup(fam)
+				mon.count("rollup.stress.rollup_jobs_requested", 1)
+			default:
+				mon.crossCheckMarks(fam, "while jobs run")
 			}
 			mon.count("compactor_ticks", 1)
 			time.Sleep(time.Duration(r.Intn(300)) * time.Microsecond)
@@ -523,6 +629,41 @@ func runChild() {
 	stop.Store(true)
 	wg.Wait()
 	kv.VerifFamilyWait(fam)
+	if c.Rollup {
+		// quiescent: how far did the rollups get, are the tables the unfinished ones need still there, and do the
+		// unfinished ones complete once nothing holds them back
+		if !quiesce(fam) {
+			fatal(dir, res, "background jobs never finished")
+		}
+		for _, fn := range ledger.numbers() {
+			pend, done, _ := ledger.pending(fn)
+			if len(pend) > 0 && len(done) > 0 {
+				mon.count("rollup.stress.partly_rolled_tables_at_the_end_of_the_concurrent_phase", 1)
+			}
+			if len(pend) > 0 {
+				mon.count("rollup.stress.tables_with_a_pending_rollup_at_the_end_of_the_concurrent_phase", 1)
+			}
+		}
+		mon.crossCheckMarks(fam, "at the end of the concurrent phase")
+		mon.checkPendingTablesReadable(fam, "at the end of the concurrent phase")
+		releasePending()
+		for round := 0; round < 2; round++ {
+			store.ForceRollup()
+			if !quiesce(fam) {
+				fatal(dir, res, "rollup job never finished")
+			}
+		}
+		for _, fn := range ledger.numbers() {
+			pend, done, _ := ledger.pending(fn)
+			if len(pend) > 0 {
+				mon.violate("C02/pending-rollup-completes-without-the-table", "table %d: after every target store is open and two more rollup jobs ran, the target families of %v still lack its tokens %v (completed: %v)",
+					fn, ivNames(pend), ledger.tokens(fn), ivNames(done))
+			} else {
+				mon.count("rollup.tables_rolled_up_to_every_interval_at_the_end", 1)
+			}
+		}
+		mon.count("rollup.merges_failed_on_purpose", failedMerges())
+	}
 
 	// quiescent checks
 	final := fam.GetSnapshot()
@@ -554,6 +695,11 @@ func runChild() {
 	}
 	final.Close()
 	_ = kv.GetStoreManager().CloseStore(storeDir)
+	if world != nil {
+		for _, t := range world.targets {
+			t.close()
+		}
+	}
 	seam.Restore()
 
 	checkHistory(mon, res, hist)
@@ -567,6 +713,14 @@ func runChild() {
 	}
 	res.Sample = map[string]interface{}{"run": idx, "config": res.Config, "history_len": len(hist), "first_ops": hist[:n], "counters": mon.counters}
 	writeResult(dir, res)
+}
+
+// mix64 (splitmix64 finaliser) decorrelates the streams of neighbouring run indices.
+func mix64(x uint64) uint64 {
+	x += 0x9e3779b97f4a7c15
+	x = (x ^ (x >> 30)) * 0xbf58476d1ce4e5b9
+	x = (x ^ (x >> 27)) * 0x94d049bb133111eb
+	return (x ^ (x >> 31)) >> 1
 }
 
 func keysOf(m map[string]bool) []string {
